@@ -99,6 +99,8 @@ type vhpxReqSpec struct {
 	NoToken  bool     `json:"no_token"`
 	XAuth    bool     `json:"xauth"` // the token travels in x-piko-authorization; Authorization carries the client's own credentials for the upstream
 	UpID string      `json:"up_id"`
+	// kind "view": node Entry's knowledge of the listed nodes is replaced (gossip caught up)
+	View []vhpxViewSpec `json:"view"`
 }
 
 type vhpxUpSpec struct {
@@ -903,9 +905,9 @@ func (c *vhpxCluster) run() {
 	}
 
 	// Views (every listener exists by now).
-	for i, ns := range spec.Nodes {
+	setView := func(i int, views []vhpxViewSpec) {
 		st := states[i]
-		for _, v := range ns.View {
+		for _, v := range views {
 			var addr string
 			switch {
 			case v.Addr == "refuse":
@@ -923,6 +925,7 @@ func (c *vhpxCluster) run() {
 			default:
 				panic("vhpx: bad view addr " + v.Addr)
 			}
+			st.RemoveNode(v.ID) // a "view" op replaces what the node knew about v.ID (no-op for a node it did not know)
 			st.AddNode(&cluster.Node{ID: v.ID, Status: cluster.NodeStatusActive, ProxyAddr: addr})
 			for _, e := range v.Eps {
 				if len(e) != 2 {
@@ -945,6 +948,9 @@ func (c *vhpxCluster) run() {
 				panic("vhpx: bad view status " + v.Status)
 			}
 		}
+	}
+	for i, ns := range spec.Nodes {
+		setView(i, ns.View)
 	}
 
 	for ri := range spec.Requests {
@@ -975,6 +981,9 @@ func (c *vhpxCluster) run() {
 			go u.serve()
 			mgrs[rq.Entry].AddConn(u)
 			ups[rq.Entry][u.id] = u
+		case "view":
+			// gossip caught up: what node Entry knows about the listed nodes is replaced
+			setView(rq.Entry, rq.View)
 		case "disconnect":
 			if u, ok := ups[rq.Entry][vhpxUnhex(rq.UpID)]; ok {
 				mgrs[rq.Entry].RemoveConn(u)
